@@ -176,6 +176,18 @@ def run(rec):
                                        for x, o1 in ((c1, a), (c2, b)) for y, o2 in ((c3, a), (c4, b))) for j in jR]
                             rec.check(np.allclose(c, exp, atol=tol), 'term_list_correlation_function_right:value',
                                       f'ops {a},{b}: {np.asarray(c)} vs dense {np.asarray(exp)}', dict(inp, ops=(a, b)))
+                        # sums whose terms start on different sites (the shorter ones are padded on the left: with a JW string
+                        # for fermionic terms)
+                        tlL2 = TermList([[(a, 0)], [(a, 1)]], [c1, c2])
+                        tlR2 = TermList([[(b, 0)], [(b, 1)]], [c3, c4])
+                        jR2 = list(range(2, L - 1))
+                        ok, c = rec.guarded('term_list_correlation_function_right[shifted terms]:exception',
+                                            lambda: psi.term_list_correlation_function_right(tlL2, tlR2, i_L=0, j_R=jR2), dict(inp, ops=(a, b)))
+                        if ok:
+                            exp = [sum(x * y * mpsgen.expect_dense(v, sites, [(a, k1), (b, j + k2)])
+                                       for x, k1 in ((c1, 0), (c2, 1)) for y, k2 in ((c3, 0), (c4, 1))) for j in jR2]
+                            rec.check(np.allclose(c, exp, atol=tol), 'term_list_correlation_function_right[shifted terms]:value',
+                                      f'ops {a},{b}: {np.asarray(c)} vs dense {np.asarray(exp)}', dict(inp, ops=(a, b)))
                 # explicit operator string (bosonic ops only)
                 bos = [n for n in cand if not s0.op_needs_JW(n)]
                 if L >= 3 and bos:
